@@ -495,6 +495,33 @@ def cases() -> List[Case]:
 
         out.append(Case(f"balanced_move/addend on the {side}", "balanced_move", build_bm, True, shape_bm))
 
+    # nested chains: the moved addend sits one addition deeper, on either side of it
+    for side in ("left", "right"):
+        for inner in ("left", "right"):
+            def build_bmn(B, side=side, inner=inner):
+                chain = ("+", ("+", "p", "t"), "q") if inner == "left" else ("+", "q", ("+", "t", "p"))
+                eq = B.node(("=", chain, "other") if side == "left" else ("=", "other", chain), name="eq")
+                B.heap.root = eq
+                eq.init["parent"] = eq.cur["parent"] = None
+                outer = cur(eq, side)
+                inn = cur(outer, inner)
+                n = cur(inn, "right") if inner == "left" else cur(inn, "left")
+                B.I.refine_kinds(n, ["VariableExpression"])
+                B.named["node"] = n
+                return n, eq
+
+            def shape_bmn(B, node, result, valid, side=side, inner=inner):
+                eq, p, q, other = B.named["eq"], B.named["p"], B.named["q"], B.named["other"]
+                if not is_kind(result, "=") or orig(result) is not eq or result is eq:
+                    return False, f"result {result}"
+                kept = cur(result, side)
+                moved = cur(result, "right" if side == "left" else "left")
+                ok = is_kind(kept, "+") and {id(orig(cur(kept, "left"))), id(orig(cur(kept, "right")))} == {id(p), id(q)}
+                ok = ok and is_kind(moved, "-") and orig(cur(moved, "left")) is other and orig(cur(moved, "right")) is node
+                return ok, f"kept {kept}, moved {moved}"
+
+            out.append(Case(f"balanced_move/addend nested in a {inner}-leaning chain on the {side}", "balanced_move", build_bmn, True, shape_bmn))
+
     def build_bmc(B):
         eq = B.node(("=", ("*", ("const", "k"), "u"), "other"), name="eq")
         B.heap.root = eq
